@@ -74,6 +74,16 @@ EXTRA_PROGRAMS = [
 ]
 
 
+OUT_STATES = ['file', 'pipe', 'null', 'closed', 'full', 'ro']      # what fd 1 is while the program runs
+UNWRITABLE = ('closed', 'full', 'ro')                              # write(1, ...) fails
+BRK_RE = re.compile(r'brk=[^,)]*')
+
+
+def out_state(case):
+    m = case.split(' ', 1)[0]
+    return m.split('/')[1] if '/' in m else 'file'
+
+
 def nsteps(prog):
     return sum(NSTEPS[m[0]] for m in prog.split())
 
@@ -155,6 +165,42 @@ def gen_cases(ck):
                     cases.append(('enum', '%s %s | %s' % (mode, prog, sch)))
                     cnt += 1
                 enum_desc.append('%s/%s/k=%d/%s:%d' % (prog.replace(' ', ''), mode, k, kinds.__name__, cnt))
+    # environment dimension "stdout state": the same schedules with fd 1 a pipe, /dev/null, closed, /dev/full, read-only
+    for pi in (1, 2):
+        prog = FAMILY[pi]
+        n = nsteps(prog)
+        for out in OUT_STATES[1:]:
+            for mode in (('bsd', 'sysv') if out in ('closed', 'pipe') else ('bsd',)):
+                for k in (0, 1, 2, 3):
+                    if k <= 2:
+                        kinds = all_kinds if (k <= 1 or thorough or out == 'closed') else alternating
+                    elif out in UNWRITABLE and mode == 'bsd' and (thorough or (out == 'closed' and pi == 1)):
+                        kinds = int_only
+                    else:
+                        continue
+                    cnt = 0
+                    for sch in schedules(n, k, kinds):
+                        cases.append(('enum-stdout', '%s/%s %s | %s' % (mode, out, prog, sch)))
+                        cnt += 1
+                    enum_desc.append('%s/%s/%s/k=%d/%s:%d' % (prog.replace(' ', ''), mode, out, k, kinds.__name__, cnt))
+    # environment dimension "inherited disposition": the process starts with SIGINT/SIGTERM ignored.  Only schedules
+    # whose signals all arrive after the first constructor has completed (before that the inherited disposition
+    # decides, which is outside the property and outside the model).
+    for pi in (1, 2):
+        prog = FAMILY[pi]
+        n = nsteps(prog)
+        for mode, out in (('bsd', 'file'), ('sysv', 'file'), ('bsd', 'closed')):
+            for k in (1, 2, 3):
+                kinds = all_kinds if k <= 2 else (all_kinds if thorough else alternating)
+                if k == 3 and not thorough and (mode, out) != ('bsd', 'file'):
+                    continue
+                cnt = 0
+                for sch in schedules(n, k, kinds):
+                    if int(sch.split(':')[0]) < NSTEPS['C']:
+                        continue
+                    cases.append(('enum-inherited-ign', '%s/%s/ign %s | %s' % (mode, out, prog, sch)))
+                    cnt += 1
+                enum_desc.append('%s/%s/%s/ign/k=%d/%s:%d' % (prog.replace(' ', ''), mode, out, k, kinds.__name__, cnt))
     for prog in EXTRA_PROGRAMS:
         n = nsteps(prog)
         for mode in ('bsd', 'sysv'):
@@ -168,10 +214,11 @@ def gen_cases(ck):
         k = rng.choice([0, 1, 1, 2, 2, 3, 3, 3, 4, 5])
         gaps = sorted(rng.randint(0, n) for _ in range(k))
         sch = ' '.join('%d:%s' % (g, rng.choice('IIT')) for g in gaps)
-        cases.append(('random', '%s %s | %s' % (rng.choice(['bsd', 'bsd', 'sysv']), prog, sch)))
+        out = rng.choice(['file', 'file', 'file'] + OUT_STATES)
+        cases.append(('random', '%s%s %s | %s' % (rng.choice(['bsd', 'bsd', 'sysv']), '' if out == 'file' else '/' + out, prog, sch)))
     # malformed stream: both sides must answer bad-op
     for bad in ['bsd R:1:1 |', 'bsd C C |', 'bsd D |', 'bsd C D D |', 'foo C |', 'bsd C | 3:I 2:I', 'bsd C | 9:I',
-                'bsd C X |', 'bsd C R:9:1 |', 'bsd C | 1:Q', 'sysv C R:1 |', 'bsd C D R:1:1 |']:
+                'bsd C X |', 'bsd/zz C |', 'bsd/closed/x C |', 'bsd C R:9:1 |', 'bsd C | 1:Q', 'sysv C R:1 |', 'bsd C D R:1:1 |']:
         cases.append(('malformed', bad))
     # de-duplicate, keep first occurrence
     seen, out = set(), []
@@ -213,6 +260,8 @@ def oracle(case, impl):
     """judge one run of the real code against the property text.  Returns list of (signature, explanation)."""
     bad = []
     mode, rest = case.split(' ', 1)
+    out = out_state(case)
+    brk_observable = out in ('file', 'pipe')
     progs, _, sched = rest.partition('|')
     prog = progs.split()
     toks = parse_line(impl)
@@ -269,12 +318,13 @@ def oracle(case, impl):
                     bad.append(('killed-while-installed', 'signal %s handled by the default action although a handler object is fully constructed' % g))
                 break
             brk = a.get('brk', '')
-            if brk not in ('0', str(MSGLEN)):
-                bad.append(('break-text-garbled', 'break text output %r' % brk))
-            if obj_phase == 'body' and brk != str(MSGLEN):
-                bad.append(('break-text-missing', 'no break text while the handler object is installed'))
-            if obj_phase == 'none' and brk != '0':
-                bad.append(('break-text-after-teardown', 'break text written although no handler object exists'))
+            if brk_observable:
+                if brk not in ('0', str(MSGLEN)):
+                    bad.append(('break-text-garbled', 'break text output %r' % brk))
+                if obj_phase == 'body' and brk != str(MSGLEN):
+                    bad.append(('break-text-missing', 'no break text while the handler object is installed'))
+                if obj_phase == 'none' and brk != '0':
+                    bad.append(('break-text-after-teardown', 'break text written although no handler object exists'))
             # the ctor window: handled by this object's handler installation but before its `stop_ = 0`
             rec = {'g': g, 'pos': pos, 'ctor_window': obj_phase == 'ctor' and not stop0_done, 'stop1_mark': stop1_seen_since}
             if installed_strict:
@@ -440,6 +490,9 @@ def run_impl(exe, lines, shards):
 
 
 def run_model(drv, lines, layout='pinned'):
+    # the model does not have the inherited disposition (it only matters before the handler is installed, and the
+    # generator never schedules a signal there for /ign cases): the model is asked about the same case without it
+    lines = [l.replace('/ign ', ' ', 1) if l.split(' ', 1)[0].endswith('/ign') else l for l in lines]
     p = subprocess.run([drv, layout], input='\n'.join(lines) + '\n', capture_output=True, text=True)
     if p.returncode != 0:
         raise RuntimeError('model driver failed: %s' % p.stderr[-800:])
@@ -461,7 +514,7 @@ def first_diff(a, b):
     return None
 
 
-N_THEOREMS = 26
+N_THEOREMS = 28
 CURRENT_LAYOUT = 'fixed'     # = Layout.current in lean/MpVerif/C15/Model.lean (the order the main theorems are stated for)
 
 
@@ -499,13 +552,13 @@ def run(ck):
     cases, enum_desc = gen_cases(ck)
     lines = [l for _, l in cases]
     ck.log('%d cases (%s)' % (len(lines), ', '.join('%s=%d' % (o, sum(1 for x, _ in cases if x == o))
-                                                        for o in ['corpus', 'counterexample', 'enum', 'enum-extra', 'random', 'malformed'])))
+                                                        for o in ['corpus', 'counterexample', 'enum', 'enum-stdout', 'enum-inherited-ign', 'enum-extra', 'random', 'malformed'])))
     impl = run_impl(exe, lines, 8 if ck.tier == 'thorough' else 6)
     ck.log('implementation runs done')
     model = run_model(drv, lines, layout)
     ck.log('model runs done')
 
-    hist = {'delivered_at': {}, 'outcome': {}, 'mode': {}, 'signals_per_case': {}, 'origin': {}}
+    hist = {'stdout': {}, 'delivered_at': {}, 'outcome': {}, 'mode': {}, 'signals_per_case': {}, 'origin': {}}
     corr_bad = []
     oracle_bad = {}
     distinct = set()
@@ -517,9 +570,16 @@ def run(ck):
             if il != 'bad-op' or ml != 'bad-op':
                 corr_bad.append((case, il, ml, 'malformed input must be rejected by both sides'))
             continue
+        if case.split(' ', 1)[0].endswith('/ign'):
+            # the state flags show 2 for an ignored signal; the model only tracks "HandleSigInt installed or not"
+            il = il.replace(',I2,', ',I0,').replace(',T2]', ',T0]')
+            hist['inherited_ignored'] = hist.get('inherited_ignored', 0) + 1
+        if out_state(case) == 'null':      # /dev/null: the break text cannot be observed; not compared
+            il, ml = BRK_RE.sub('brk=~', il), BRK_RE.sub('brk=~', ml)
         if il != ml:
             corr_bad.append((case, il, ml, None))
-        mode = case.split(' ', 1)[0]
+        hist['stdout'][out_state(case)] = hist['stdout'].get(out_state(case), 0) + 1
+        mode = case.split(' ', 1)[0].split('/')[0]
         hist['mode'][mode] = hist['mode'].get(mode, 0) + 1
         toks = il.split(' ')
         prev = 'start'
@@ -600,8 +660,9 @@ def run(ck):
     ck.assumptions += [
         'signals are delivered on the interrupted thread and HandleSigInt is not re-entered while it runs (nested delivery is not modelled)',
         'a store to std::atomic<T> / volatile sig_atomic_t is one indivisible program step; delivery inside a store or inside write(2) is not modelled',
-        'write(2) to fd 1 succeeds; the callback itself returns (its return value is ignored by HandleSigInt)',
+        'write(2) to fd 1 either succeeds completely or fails (both modelled and exercised: fd 1 = memfd, pipe, /dev/null, closed, /dev/full, read-only); partial writes are not modelled; the callback itself returns (its return value is ignored by HandleSigInt)',
         'signal(2) semantics: both the glibc/BSD one and the SysV reset-on-entry one are modelled and exercised (through an interposed ::signal in the harness)',
+        'inherited dispositions: default action is modelled; inherited SIG_IGN is exercised on the real code only for schedules whose signals arrive after the constructor (where the property says it must not matter) and compared with the same model',
         'Windows signal repeater thread (SW_sigpipe) out of scope',
     ]
     ck.cov['trusted_base'] += [
